@@ -375,6 +375,7 @@ def schema_trees(tier, rng=None):
     # first (forward) reference is neither the first child of its parent nor held by the most recently reserved node
     add("fwd_after_sibling", rec("a.T", [("a", arr(prim("int"))), ("b", enum("a.E", ["S", "T"])), ("c", ref("a.E"))]))
     add("fwd_in_union_second", rec("a.T", [("x", rec("a.In", [("m", mp(prim("string")))])), ("u", un(prim("null"), enum("a.E", ["S"]))), ("e", ref("a.E"))]))
+    add("fwd_in_map", rec("a.T", [("x", arr(prim("long"))), ("m", mp(enum("a.E", ["S"]))), ("n", mp(un(prim("null"), fixed("a.F", 2)))), ("e", ref("a.E")), ("f", ref("a.F"))]))
     add("fwd_two_types", rec("T", [("a", rec("A", [("x", mp(prim("string")))])), ("b", arr(fixed("F", 3))), ("c", ref("F")), ("d", un(prim("null"), enum("E", ["Q"]))),
                                    ("e", arr(ref("E")))]))
     if rng is not None:
